@@ -33,7 +33,9 @@ CONTRIBS = ("auto_header_unreserved", "font_ignorant_heights", "continuation_hea
 def strategy(tier):
     return st.one_of(
         pgen.pag_recipe(fonts=True, max_rows=60, nrow_range=(1, 50), levels_max=3, subline_with_page_by=True, widths=True, nulls=True),
-        pgen.pag_recipe(fonts=False, max_rows=40, nrow_range=(2, 14), levels_max=2, nulls=True, widths=True),
+        pgen.pag_recipe(fonts=False, max_rows=40, nrow_range=(2, 14), levels_max=2, nulls=True, widths=True, tall_headings=True),
+        pgen.pag_recipe(fonts=False, max_rows=40, nrow_range=(6, 16), levels_max=2, strategies=("page_by", "page_by_new"), pageby_rows=("column", "first_row"),
+                        tall_headings=True, fn_src=False, headers=("explicit", "none")),
         pgen.pag_recipe(fonts=False, max_rows=30, nrow_range=(2, 12), levels_max=1, headers=("explicit", "multi", "none")),
         # tight pages: nothing reserved that is not rendered, so a single uncounted line shows up as an overflow
         pgen.pag_recipe(fonts=False, max_rows=40, nrow_range=(3, 12), levels_max=2, headers=("explicit", "none"), fn_src=False,
